@@ -48,7 +48,7 @@ def run(prop, tier):
             rep.cov["traces_validated_against_impl"] += 1
             rep.count_case([sc["threads"], sc["cycles"], h["schedule"]], len(set(h["schedule"])) > 1)
             if h["errors"]:
-                rep.violation("a thread raised: %s" % h["errors"][:2], {"engine": "conc", "module": "checks_c19", "scenario": sc, "schedule": h["schedule"]})
+                rep.violation("a thread raised, or everything blocked for ever: %s" % h["errors"][:2], {"engine": "conc", "module": "checks_c19", "scenario": sc, "schedule": h["schedule"]})
             elif a is None:
                 raise MachineryFailure("no verdict for a writer history")
             elif a[2]:
